@@ -5,7 +5,9 @@
 //!
 //! Protocol (`lb <op> <sid> …`, state per `sid`):
 //!   new    sid start end threshold ext cap onlyInc window
-//!   create sid t now                         (participant creation — *modelled*, see design.d/C39.md)
+//!   create sid t now                         the REAL `create_participant_idempotent` through the entrypoint (system-program
+//!                                            CreateAccount of Anchor's `init_if_needed` emulated by the CPI stub)
+//!   close  sid t now                         the REAL `close_participant` through the entrypoint (signer = the trader)
 //!   trade  sid t now kind ver extra success ev evUser before after
 //!   upd    sid t v  a1 v1 a2 v2 …            (unit: update_leaderboard on an arbitrary board)
 //!   ext    sid old ext cap now               (unit: extend_competition_time)
@@ -21,10 +23,70 @@ const NT: u8 = 12; // trader ids 0..NT
 
 fn trader_key(t: u8) -> Pubkey { Pubkey::new_from_array([t + 1; 32]) }
 
+/// sysvars as `h_store::install_stubs`, plus the system program's CreateAccount (Anchor `init_if_needed`) emulated
+struct Stubs;
+impl anchor_lang::solana_program::program_stubs::SyscallStubs for Stubs {
+    fn sol_get_clock_sysvar(&self, var_addr: *mut u8) -> u64 {
+        let clock = anchor_lang::solana_program::clock::Clock { slot: 1000, epoch_start_timestamp: 0, epoch: 0, leader_schedule_epoch: 0, unix_timestamp: h_store::NOW.load(std::sync::atomic::Ordering::SeqCst) };
+        unsafe { std::ptr::write_unaligned(var_addr as *mut anchor_lang::solana_program::clock::Clock, clock) };
+        0
+    }
+    fn sol_get_rent_sysvar(&self, var_addr: *mut u8) -> u64 {
+        unsafe { std::ptr::write_unaligned(var_addr as *mut anchor_lang::solana_program::rent::Rent, anchor_lang::solana_program::rent::Rent::default()) };
+        0
+    }
+    fn sol_get_last_restart_slot(&self, var_addr: *mut u8) -> u64 { unsafe { std::ptr::write_unaligned(var_addr as *mut u64, 0) }; 0 }
+    fn sol_log(&self, _m: &str) {}
+    fn sol_invoke_signed(&self, ix: &anchor_lang::solana_program::instruction::Instruction, infos: &[AccountInfo], _seeds: &[&[&[u8]]]) -> anchor_lang::solana_program::entrypoint::ProgramResult {
+        if ix.program_id == anchor_lang::system_program::ID && ix.data.len() == 52 && ix.data[..4] == [0, 0, 0, 0] {
+            let lamports = u64::from_le_bytes(ix.data[4..12].try_into().unwrap());
+            let space = u64::from_le_bytes(ix.data[12..20].try_into().unwrap()) as usize;
+            let owner = Pubkey::new_from_array(ix.data[20..52].try_into().unwrap());
+            let from = infos.iter().find(|i| *i.key == ix.accounts[0].pubkey).ok_or(ProgramError::NotEnoughAccountKeys)?;
+            let to = infos.iter().find(|i| *i.key == ix.accounts[1].pubkey).ok_or(ProgramError::NotEnoughAccountKeys)?;
+            if to.lamports() != 0 || !to.data_is_empty() || *to.owner != anchor_lang::system_program::ID { return Err(ProgramError::AccountAlreadyInitialized); }
+            if from.lamports() < lamports { return Err(ProgramError::InsufficientFunds); }
+            **from.lamports.borrow_mut() -= lamports;
+            **to.lamports.borrow_mut() += lamports;
+            to.realloc(space, true)?;
+            to.assign(&owner);
+            return Ok(());
+        }
+        Err(ProgramError::InvalidInstructionData)
+    }
+}
+
+#[repr(C)]
+struct KeyBox { pad: u64, key: Pubkey }
+/// account with room to grow (realloc): data starts 8 bytes into a 16-aligned buffer
+struct Acc { key: KeyBox, lamports: u64, buf: Vec<u128>, len: usize, owner: Pubkey, signer: bool, writable: bool, exec: bool }
+impl Acc {
+    fn new(key: Pubkey, owner: Pubkey, data: &[u8], lamports: u64) -> Self {
+        let mut buf = vec![0u128; (data.len().max(512) + 8) / 16 + 2];
+        bytemuck::cast_slice_mut::<u128, u8>(&mut buf)[8..8 + data.len()].copy_from_slice(data);
+        Acc { key: KeyBox { pad: 0, key }, lamports, buf, len: data.len(), owner, signer: false, writable: false, exec: false }
+    }
+    fn signer(mut self) -> Self { self.signer = true; self }
+    fn writable(mut self) -> Self { self.writable = true; self }
+    fn exec(mut self) -> Self { self.exec = true; self }
+}
+/// runs the competition entrypoint; returns (ok, per-account (owner, lamports, data) afterwards)
+fn call_accs(accs: &mut [Acc], data: &[u8]) -> (bool, Vec<(Pubkey, u64, Vec<u8>)>) {
+    let infos: Vec<AccountInfo> = accs.iter_mut().map(|a| {
+        let d = &mut bytemuck::cast_slice_mut::<u128, u8>(&mut a.buf)[8..8 + a.len];
+        AccountInfo::new(&a.key.key, a.signer, a.writable, &mut a.lamports, d, &a.owner, a.exec, 0)
+    }).collect();
+    let r = call_entry(&gmsol_competition::ID, &infos, data);
+    let after = infos.iter().map(|i| (*i.owner, i.lamports(), i.data.borrow().to_vec())).collect();
+    (r.is_ok(), after)
+}
+
 struct Sid {
     comp_key: Pubkey,
     comp: Vec<u8>,
     parts: BTreeMap<u8, (Pubkey, Vec<u8>)>, // trader id -> (pda, account bytes); empty bytes = absent
+    /// a participant account was closed after the end: board entries may legitimately be stale from then on
+    over: bool,
 }
 
 struct World {
@@ -177,26 +239,60 @@ fn exec(w: &mut World, req: &str, out: &mut Out) -> (String, bool) {
                 leaderboard: vec![], volume_threshold: thr, extension_duration: ext, extension_cap: cap,
                 extension_triggerer: None, only_count_increase: oi == 1, volume_merge_window: win,
             };
-            let s = Sid { comp_key, comp: ser(&c, 8 + Competition::INIT_SPACE), parts: BTreeMap::new() };
+            let s = Sid { comp_key, comp: ser(&c, 8 + Competition::INIT_SPACE), parts: BTreeMap::new(), over: false };
             let d = digest(&s);
             w.sids.insert(sid, s);
             (format!("ok | {d}"), false)
         }
-        "create" => {
+        "create" | "close" => {
             let (Some(tr), Some(now)) = (parse::<u8>(&t, 3), parse::<i64>(&t, 4)) else { return ("bad-op".into(), false) };
             if t.len() != 5 || tr >= NT || !w.sids.contains_key(&sid) { return ("bad-op".into(), false); }
+            let is_close = t[1] == "close";
+            h_store::set_now(now);
             let comp_key = w.sids[&sid].comp_key;
             let pda = w.pda(comp_key, tr);
             let s = w.sids.get_mut(&sid).unwrap();
+            let before_d = digest(s);
+            let comp0 = load_comp(&s.comp);
             let e = s.parts.entry(tr).or_insert((pda, Vec::new()));
-            let mut nt = false;
-            if e.1.is_empty() {
-                // MODELLED: transcription of `create_participant_idempotent` (needs a system-program CPI)
-                let p = Participant { bump: 255, competition: comp_key, trader: trader_key(tr), volume: 0, last_updated_at: now, merged_volume: 0 };
-                e.1 = ser(&p, 8 + Participant::INIT_SPACE);
-                nt = true;
-            }
-            (format!("ok | {}", digest(s)), nt)
+            let (prog, sys) = (gmsol_competition::ID, anchor_lang::system_program::ID);
+            let existed = !e.1.is_empty();
+            let part = if existed { Acc::new(pda, prog, &e.1, 2_000_000).writable() } else { Acc::new(pda, sys, &[], 0).writable() };
+            let comp = Acc::new(comp_key, prog, &s.comp, 1_000_000);
+            let (ok, nt) = if is_close {
+                let mut accs = vec![Acc::new(trader_key(tr), sys, &[], 1_000_000).signer().writable(), comp, part];
+                let (ok, after) = call_accs(&mut accs, &gmsol_competition::instruction::CloseParticipant {}.data());
+                if ok {
+                    // ---- property oracle: no participant account may be closed while trades are still counted
+                    if now >= comp0.start_time && now <= comp0.end_time { out.oracle_fail(&format!("a participant account was closed while the competition is ongoing (now {now}, end {})", comp0.end_time), req); }
+                    if !existed { out.oracle_fail("closed a participant account that does not exist", req); }
+                    if after[2].0 != sys || !after[2].2.is_empty() || after[2].1 != 0 { out.oracle_fail("the closed participant account still exists", req); }
+                    if after[0].1 != 1_000_000 + 2_000_000 { out.oracle_fail("the rent of the closed participant did not go to the trader", req); }
+                    if after[1].2 != s.comp { out.oracle_fail("closing a participant changed the competition account", req); }
+                    s.parts.get_mut(&tr).unwrap().1 = Vec::new();
+                    if now > comp0.end_time { s.over = true; }
+                }
+                (ok, ok)
+            } else {
+                let mut accs = vec![Acc::new(Pubkey::new_from_array([250; 32]), sys, &[], 1_000_000_000).signer().writable(), comp, part,
+                                    Acc::new(trader_key(tr), sys, &[], 1), Acc::new(sys, sys, &[], 1).exec()];
+                let (ok, after) = call_accs(&mut accs, &gmsol_competition::instruction::CreateParticipantIdempotent {}.data());
+                if ok {
+                    if existed && after[2].2 != s.parts[&tr].1 { out.oracle_fail("create_participant_idempotent changed an existing participant", req); }
+                    match load_part(&after[2].2) {
+                        Some(p) => { if !existed && (p.volume != 0 || p.merged_volume != 0 || p.trader != trader_key(tr) || p.competition != comp_key || p.last_updated_at != now) { out.oracle_fail("a new participant is not initialised to volume 0 for this trader and competition", req); } }
+                        None => out.oracle_fail("create_participant_idempotent left no participant account", req),
+                    }
+                    if after[1].2 != s.comp { out.oracle_fail("creating a participant changed the competition account", req); }
+                    s.parts.get_mut(&tr).unwrap().1 = after[2].2.clone();
+                }
+                (ok, ok && !existed)
+            };
+            let d = digest(s);
+            if !ok && d != before_d { out.oracle_fail("a failed create / close changed account bytes", req); }
+            let s = &w.sids[&sid];
+            oracle_state(s, &comp0, now, ok, &before_d, &d, req, out);
+            (format!("{} | {d}", if ok { "ok" } else { "err" }), nt)
         }
         "trade" => {
             if t.len() != 13 || !w.sids.contains_key(&sid) { return ("bad-op".into(), false); }
@@ -268,7 +364,10 @@ fn oracle_state(s: &Sid, old: &Competition, now: i64, ok: bool, before_d: &str, 
         if b[i].address == b[j].address { out.oracle_fail("leaderboard lists a trader twice", req); }
     } }
     for i in 1..b.len() { if b[i - 1].volume < b[i].volume { out.oracle_fail("leaderboard is not in non-increasing order", req); } }
+    // volumes of ALL participant accounts that exist (re-created ones included)
     let vols: BTreeMap<Pubkey, u128> = s.parts.values().filter_map(|(_, bytes)| load_part(bytes)).map(|p| (p.trader, p.volume)).collect();
+    // once an account was closed AFTER the end the board is history: entries may be stale (the property speaks about the competition)
+    let b: &Vec<LeaderEntry> = if s.over { &Vec::new() } else { b };
     for e in b {
         if vols.get(&e.address) != Some(&e.volume) { out.oracle_fail(&format!("entry of trader {} does not carry the latest volume", tid(&e.address)), req); }
     }
@@ -293,16 +392,50 @@ fn gen_history(r: &mut Rng, sid: usize, reqs: &mut Vec<String>, budget: usize) {
     let base: i64 = if r.chance(1, 8) { i64::MAX - r.range(0, 2000) as i64 } else { 1_700_000_000 + r.below(1000) as i64 };
     let start = base;
     let end = base.saturating_add(if r.chance(1, 5) { r.range(1, 100) } else { r.range(200, 1500) } as i64);
-    let thr: u128 = if big { r.num(128).max(1) } else { r.range(1, 40) as u128 };
+    // `noext`: a threshold no trade reaches, so the end time stays where the generator knows it (aimed clocks below)
+    let noext = !big && r.chance(1, 2);
+    let thr: u128 = if big { r.num(128).max(1) } else if noext { 1_000_000_000_000_000_000_000_000_000_000 } else { r.range(1, 40) as u128 };
     let ext: i64 = match r.below(8) { 0 => r.inum(64) as i64, 1 => i64::MAX - r.below(3) as i64, _ => r.range(1, 300) as i64 };
     let cap: i64 = match r.below(8) { 0 => r.inum(64) as i64, 1 => i64::MAX - r.below(3) as i64, _ => ext.max(1).saturating_add(r.below(200) as i64) };
     let oi = r.below(2);
     let win: i64 = match r.below(6) { 0 => r.inum(64) as i64, _ => r.range(1, 50) as i64 };
     reqs.push(format!("lb new {sid} {start} {end} {thr} {ext} {cap} {oi} {win}"));
     let mut now = start.saturating_sub(r.below(3) as i64);
-    let ntr = r.range(2, NT as u64) as u8;
+    let ntr = if noext { r.range(6, NT as u64) as u8 } else { r.range(2, NT as u64) as u8 };
+    let script_at = if noext && end < i64::MAX - 10 { budget * 2 / 3 } else { usize::MAX };
     let mut vol: BTreeMap<u8, u128> = BTreeMap::new(); // generator's own guess of volumes (only steers the choice)
-    for _ in 0..budget {
+    let trade_line = |sid: &str, t: u8, now: i64, v: u128| format!("lb trade {sid} {t} {now} 3 0 2 1 1 {t} 7 {}", 7 + v);
+    for it in 0..budget {
+        if it == script_at {
+            // the last seconds: end - 1, end (still counted!), end + 1 — closes, re-creations and small trades of LISTED traders
+            let mut by_vol: Vec<(u8, u128)> = vol.iter().map(|(a, b)| (*a, *b)).collect();
+            by_vol.sort_by(|x, y| y.1.cmp(&x.1));
+            let pick = |r: &mut Rng, k: usize| -> u8 { by_vol.get(k.min(by_vol.len().saturating_sub(1))).map(|x| x.0).unwrap_or(r.below(ntr as u64) as u8) };
+            let (k1, k2) = (r.below(3) as usize, 3 + r.below(2) as usize);
+            let (a, b2, c2) = (pick(r, k1), pick(r, k2), r.below(ntr as u64) as u8);
+            now = now.max(end - 1);
+            if now == end - 1 { reqs.push(format!("lb close {sid} {a} {now}")); reqs.push(trade_line(&sid, c2, now, r.range(1, 3) as u128)); *vol.entry(c2).or_insert(0) += 0; }
+            now = now.max(end);
+            if now == end {
+                for x in [a, b2] {
+                    reqs.push(format!("lb close {sid} {x} {now}"));
+                    reqs.push(format!("lb create {sid} {x} {now}"));
+                    reqs.push(trade_line(&sid, x, now, r.range(1, 3) as u128));
+                }
+            }
+            now = now.max(end + 1);
+            for x in [a, c2] {
+                reqs.push(format!("lb close {sid} {x} {now}"));
+                if r.chance(1, 2) { reqs.push(format!("lb create {sid} {x} {now}")); reqs.push(trade_line(&sid, x, now, 2)); }
+            }
+            continue;
+        }
+        if r.chance(1, 14) {
+            let t = r.below(ntr as u64) as u8;
+            reqs.push(format!("lb close {sid} {t} {now}"));
+            if r.chance(1, 2) { reqs.push(format!("lb create {sid} {t} {now}")); }
+            continue;
+        }
         if r.chance(3, 4) { now = now.saturating_add(match r.below(6) { 0 => 0, 1 => r.range(30, 120) as i64, _ => r.range(0, 12) as i64 }); }
         let t = r.below(ntr as u64) as u8;
         if !vol.contains_key(&t) && r.chance(9, 10) {
@@ -359,7 +492,7 @@ fn main() {
     let cli = cli();
     let mut out = Out::new();
     std::panic::set_hook(Box::new(|_| {}));
-    h_store::install_stubs();
+    anchor_lang::solana_program::program_stubs::set_syscall_stubs(Box::new(Stubs));
     let reqs: Vec<String> = if cli.mode == "replay" {
         read_requests(cli.file.as_deref().unwrap())
     } else {
